@@ -33,7 +33,7 @@ Print Assumptions C16_schema_rejects_missing_list.
 
 (* the property names in the source (gen/Tables.v, regenerated on every run): every legacy property is written by the
    encoder, and the model's names are the source's *)
-From LD Require Import TablesProof.
+From LD Require Import TablesJson.
 From LDGen Require Import Tables.
 From Coq Require Import String.
 Theorem C16_legacy_properties_are_written : forallb (fun p => mem_s p written_properties) legacy_required = true.
